@@ -35,8 +35,14 @@ SHAPES = {
     "again": (["{NUMBER:x} again"], "echo", 0.0, ""),
     # a field restricted to one unit family (the family name contains a hyphen)
     "flag": (["{DYNAMIC_TYPE:q:metric-length} flagged"], "const_number", 777.0, ""),
+    # literals with letters outside ASCII: a constrained text field and a plain word of the pattern are compared
+    # case-insensitively by the Unicode rules, whichever case the pattern and the line are written in
+    "cay": (["{NUMBER:n} {TEXT:what:ÇAY}"], "const_number", 55.0, ""),
+    "kafe": (["{NUMBER:n} {TEXT:what:καφε}"], "const_number", 66.0, ""),
+    "ussu": (["{NUMBER:a} üssü {NUMBER:b}"], "sum", 0.0, ""),
 }
-PROBES = ["3 widgets", "5 gadgets", "2 plus 5", "magic number", "price of gold", "7 again", "1 + 1", "3 km flagged", "3 kb flagged"]
+PROBES = ["3 widgets", "5 gadgets", "2 plus 5", "magic number", "price of gold", "7 again", "1 + 1", "3 km flagged", "3 kb flagged",
+          "3 çay", "4 Çay", "5 ÇAY", "2 ΚΑΦΕ", "2 καφε", "2 ÜSSÜ 5", "3 üssü 4"]
 
 
 def add_op(name, shape, lang="en"):
@@ -67,7 +73,14 @@ def probe_expect(regs, text):
         return first(pred)
     if " plus " in text:
         a, b = text.split(" plus ")
-        return first(lambda pats, kind, k: ("Number", float(a) + float(b)) if kind == "sum" else None)
+        return first(lambda pats, kind, k: ("Number", float(a) + float(b)) if kind == "sum" and any(" plus " in p for p in pats) else None)
+    if " üssü " in text.lower():
+        a, _, b = text.split(" ")
+        return first(lambda pats, kind, k: ("Number", float(a) + float(b)) if kind == "sum" and any("üssü" in p for p in pats) else None)
+    if text.lower().endswith(" çay"):
+        return first(lambda pats, kind, k: ("Number", k) if any("ÇAY" in p for p in pats) else None)
+    if text.lower().endswith(" καφε"):
+        return first(lambda pats, kind, k: ("Number", k) if any("καφε" in p for p in pats) else None)
     if text == "magic number":
         return first(lambda pats, kind, k: ("Number", k) if (kind == "const_number" and "magic number" in pats) else None)
     if text == "3 km flagged":
@@ -180,6 +193,25 @@ def generate(rng, tier):
         ops.append({"op": "exec_fresh", "lang": "en", "text": t})
         checks.append(("same", len(ops) - 2, len(ops) - 1))
     cases.append({"ops": ops, "meta": {"kind": "family", "checks": checks, "interesting": True, "pair": None}})
+    # a family whose codes have an OFFSET (affine, not linear): the chain is followed for every amount, zero included;
+    # and a family whose unit word has letters outside ASCII, written in another case on the line
+    fam2 = [{"op": "add_type", "name": "temp"},
+            item("temp", 1, "{value} kx", "kx", "{value} - 273", "{value}"),
+            item("temp", 2, "{value} cx", "cx", "{value} * 9 / 5 + 32", "{value} + 273"),
+            item("temp", 3, "{value} fx", "fx", "{value}", "({value} - 32) * 5 / 9"),
+            {"op": "add_type", "name": "kap"},
+            item("kap", 1, "{value} bardak", "bardak", "{value} / 4", "{value}"),
+            dict(item("kap", 2, "{value} çömlek", "ÇÖMLEK", "{value}", "{value} * 4"), names=["çömlek"])]
+    checks2 = [("ret", i, True) for i in range(len(fam2))]
+    ops2 = list(fam2)
+    for t, v, idx, grp in [("0 cx to fx", 32.0, 3, "temp"), ("0 cx to kx", 273.0, 1, "temp"), ("100 cx to fx", 212.0, 3, "temp"),
+                           ("0 kx to fx", -273.0 * 9 / 5 + 32, 3, "temp"), ("32 fx to cx", 0.0, 2, "temp"),
+                           ("0 fx to kx", (0.0 - 32) * 5 / 9 + 273, 1, "temp"), ("-0 cx to fx", 32.0, 3, "temp"),
+                           ("5 cx to cx", 5.0, 2, "temp"), ("2 çömlek to bardak", 8.0, 1, "kap"), ("8 bardak to çömlek", 2.0, 2, "kap"),
+                           ("2 ÇÖMLEK to bardak", 8.0, 1, "kap")]:
+        ops2.append({"op": "exec", "lang": "en", "text": t})
+        checks2.append(("unit", len(ops2) - 1, v, idx, grp, 1e-12))
+    cases.append({"ops": ops2, "meta": {"kind": "family-affine", "checks": checks2, "interesting": True, "pair": None}})
     return cases
 
 
@@ -236,8 +268,11 @@ def spec_check(c, rec, header):
             if not lines or lines[0] is None:
                 return "unit probe %r gave %r" % (c["ops"][ch[1]]["text"], lines)
             k, v = line_value(lines[0])
-            if k != "item" or v["t"] != "DynamicType" or from_bits(v["v"]) != ch[2] or v["group"] != "coin" or v["index"] != ch[3]:
-                return "unit probe %r: expected %r of coin[%d], got %r" % (c["ops"][ch[1]]["text"], ch[2], ch[3], v)
+            group = ch[4] if len(ch) > 4 else "coin"
+            tol = ch[5] if len(ch) > 5 else 0.0
+            if k != "item" or v["t"] != "DynamicType" or abs(from_bits(v["v"]) - ch[2]) > tol * max(1.0, abs(ch[2])) \
+                    or v["group"] != group or v["index"] != ch[3]:
+                return "unit probe %r: expected %r of %s[%d], got %r" % (c["ops"][ch[1]]["text"], ch[2], group, ch[3], v)
     return None
 
 
